@@ -344,11 +344,11 @@ pub open spec fn r_tell_timeout<M>(this: HandleView, pid: int, d: Duration, l0: 
     let env = env_view(pid, None, this.mbx);
     let pre = l0.push(Eff::Await(AwaitKind::Send));
     match r {
-        Ok(_) => l1 =~= pre.push(Eff::Enq(this.mbx, env)).push(Eff::TimeoutArmed(d)),
+        Ok(_) => l1 =~= tm_log(pre.push(Eff::Enq(this.mbx, env)), d),
         Err(Error::Send { identity, .. }) => identity == this.id
-            && l1 =~= dl_log::<M>(pre.push(Eff::Rejected(this.mbx, env)), this.id, DeadLetterReason::ActorStopped, op).push(Eff::TimeoutArmed(d)),
-        Err(Error::Timeout { identity, timeout, operation }) => identity == this.id && timeout == d && operation@ == op
-            && l1 =~= dl_log::<M>(l0.push(Eff::TimeoutArmed(d)), this.id, DeadLetterReason::Timeout, op),
+            && l1 =~= tm_log(dl_log::<M>(pre.push(Eff::Rejected(this.mbx, env)), this.id, DeadLetterReason::ActorStopped, op), d),
+        Err(Error::Timeout { identity, timeout, operation }) => identity == this.id && tm_fields_ok(timeout, d, operation@, op)
+            && l1 =~= dl_log::<M>(tm_log(l0, d), this.id, DeadLetterReason::Timeout, op),
         Err(_) => false,
     }
 }
@@ -450,7 +450,7 @@ pub open spec fn same_ambient_but_dl(w0: World, w1: World) -> bool {
     &&& w1.cells() == w0.cells()
 }
 
-#[cfg(not(feature = "deadlock-detection"))]
+#[cfg(any(not(feature = "deadlock-detection"), feature = "vx-nodd"))]
 pub open spec fn r_ask<M, R>(this: HandleView, pid: int, w0: World, w1: World, r: Result<R>, op: Seq<char>) -> bool {
     r_ask_core::<M, R>(this, pid, w0.log(), w1.log(), r, op)
 }
@@ -458,16 +458,16 @@ pub open spec fn r_ask<M, R>(this: HandleView, pid: int, w0: World, w1: World, r
 /// R_ask_timeout(d): the inner ask outcome passes through unchanged (timer resolution appended), or Err(Timeout{self.id, d, op})
 /// with the log cut at one of ask's two suspension points — before the send completed (nothing enqueued) or while waiting for
 /// the reply — plus exactly one Timeout dead letter.
-#[cfg(not(feature = "deadlock-detection"))]
+#[cfg(any(not(feature = "deadlock-detection"), feature = "vx-nodd"))]
 pub open spec fn r_ask_timeout<M, R>(this: HandleView, pid: int, d: Duration, w0: World, w1: World, r: Result<R>, op: Seq<char>) -> bool {
     let l0 = w0.log();
     let l1 = w1.log();
     let q = req_at(l1, l0.len() as int + 1);
     match r {
-        Err(Error::Timeout { identity, timeout, operation }) => identity == this.id && timeout == d && operation@ == op
-            && (l1 =~= dl_log::<M>(l0.push(Eff::TimeoutArmed(d)), this.id, DeadLetterReason::Timeout, op)
-                || l1 =~= dl_log::<M>(ask_sent(this, pid, q, l0).push(Eff::TimeoutArmed(d)), this.id, DeadLetterReason::Timeout, op)),
-        _ => l1.len() > 0 && l1.last() == Eff::TimeoutArmed(d) && r_ask_core::<M, R>(this, pid, l0, l1.drop_last(), r, op),
+        Err(Error::Timeout { identity, timeout, operation }) => identity == this.id && tm_fields_ok(timeout, d, operation@, op)
+            && (l1 =~= dl_log::<M>(tm_log(l0, d), this.id, DeadLetterReason::Timeout, op)
+                || l1 =~= dl_log::<M>(tm_log(ask_sent(this, pid, q, l0), d), this.id, DeadLetterReason::Timeout, op)),
+        _ => tm_last_ok(l1, d) && r_ask_core::<M, R>(this, pid, l0, tm_strip(l1), r, op),
     }
 }
 
@@ -662,7 +662,9 @@ pub open spec fn lock_map_at(l: Seq<Eff>, i: int) -> Map<u64, Identity> {
 
 /// WaitForGuard(key) dropped: one lock acquisition, exactly its own key removed, lock released; with a poisoned lock
 /// nothing happens (and nothing panics).
-#[cfg(feature = "deadlock-detection")]
+#[cfg(all(feature = "deadlock-detection", feature = "vx-nodd"))]
+pub open spec fn guard_removed(key: u64, w0: World, w1: World) -> bool { w1.log() =~= w0.log() && !w1.lock_held() }
+#[cfg(all(feature = "deadlock-detection", not(feature = "vx-nodd")))]
 pub open spec fn guard_removed(key: u64, w0: World, w1: World) -> bool {
     let g = lock_map_at(w1.log(), w0.log().len() as int);
     if w0.poisoned() { w1.log() =~= w0.log() && w1.graph() == w0.graph() && !w1.lock_held() }
@@ -680,7 +682,7 @@ pub open spec fn guard_dropped(g: Option<WaitForGuard>, w0: World, w1: World) ->
 /// lock are never touched.  Tracked caller c: under ONE lock acquisition the cycle check (self-ask or a chain of edges from
 /// the callee back to c => the function does not return: deliberate panic) and then the insertion of edge c -> callee;
 /// the core exchange; on every exit the guard removes exactly c's edge.
-#[cfg(feature = "deadlock-detection")]
+#[cfg(all(feature = "deadlock-detection", not(feature = "vx-nodd")))]
 pub open spec fn r_ask_tracked_log<M, R>(this: HandleView, pid: int, c: Identity, l0: Seq<Eff>, l1: Seq<Eff>, r: Result<R>, op: Seq<char>) -> bool {
     let g = lock_map_at(l1, l0.len() as int);
     let g2 = lock_map_at(l1, l1.len() - 2);
@@ -691,7 +693,7 @@ pub open spec fn r_ask_tracked_log<M, R>(this: HandleView, pid: int, c: Identity
     &&& l1 =~= ask_core_log::<M, R>(this, pid, req_at(l1, l0.len() as int + 3), recv_vid_at(l1, l1.len() - 3), pre, r, op)
                 .push(Eff::Lock(g2)).push(Eff::Unlock(g2.remove(c.id)))
 }
-#[cfg(feature = "deadlock-detection")]
+#[cfg(all(feature = "deadlock-detection", not(feature = "vx-nodd")))]
 pub open spec fn r_ask<M, R>(this: HandleView, pid: int, w0: World, w1: World, r: Result<R>, op: Seq<char>) -> bool {
     match w0.current_actor() {
         None => r_ask_core::<M, R>(this, pid, w0.log(), w1.log(), r, op) && w1.graph() == w0.graph(),
@@ -701,7 +703,7 @@ pub open spec fn r_ask<M, R>(this: HandleView, pid: int, w0: World, w1: World, r
 }
 /// R_ask_timeout with deadlock detection: as without, and for a tracked caller the wait-for edge is gone afterwards whatever
 /// the outcome (completion, error, or cancellation by the timer: the guard is dropped with the cancelled future).
-#[cfg(feature = "deadlock-detection")]
+#[cfg(all(feature = "deadlock-detection", not(feature = "vx-nodd")))]
 pub open spec fn r_ask_timeout<M, R>(this: HandleView, pid: int, d: Duration, w0: World, w1: World, r: Result<R>, op: Seq<char>) -> bool {
     let l0 = w0.log();
     let l1 = w1.log();
@@ -709,10 +711,10 @@ pub open spec fn r_ask_timeout<M, R>(this: HandleView, pid: int, d: Duration, w0
         None => {
             let q = req_at(l1, l0.len() as int + 1);
             w1.graph() == w0.graph() && match r {
-                Err(Error::Timeout { identity, timeout, operation }) => identity == this.id && timeout == d && operation@ == op
-                    && (l1 =~= dl_log::<M>(l0.push(Eff::TimeoutArmed(d)), this.id, DeadLetterReason::Timeout, op)
-                        || l1 =~= dl_log::<M>(ask_sent(this, pid, q, l0).push(Eff::TimeoutArmed(d)), this.id, DeadLetterReason::Timeout, op)),
-                _ => l1.len() > 0 && l1.last() == Eff::TimeoutArmed(d) && r_ask_core::<M, R>(this, pid, l0, l1.drop_last(), r, op),
+                Err(Error::Timeout { identity, timeout, operation }) => identity == this.id && tm_fields_ok(timeout, d, operation@, op)
+                    && (l1 =~= dl_log::<M>(tm_log(l0, d), this.id, DeadLetterReason::Timeout, op)
+                        || l1 =~= dl_log::<M>(tm_log(ask_sent(this, pid, q, l0), d), this.id, DeadLetterReason::Timeout, op)),
+                _ => tm_last_ok(l1, d) && r_ask_core::<M, R>(this, pid, l0, tm_strip(l1), r, op),
             }
         },
         Some(c) => {
@@ -723,10 +725,10 @@ pub open spec fn r_ask_timeout<M, R>(this: HandleView, pid: int, d: Duration, w0
             &&& !reach(g, this.id.id, c.id)
             &&& !w1.graph().contains_key(c.id)
             &&& match r {
-                Err(Error::Timeout { identity, timeout, operation }) => identity == this.id && timeout == d && operation@ == op
-                    && (l1 =~= dl_log::<M>(pre.push(Eff::TimeoutArmed(d)), this.id, DeadLetterReason::Timeout, op)
-                        || l1 =~= dl_log::<M>(ask_sent(this, pid, q, pre).push(Eff::TimeoutArmed(d)), this.id, DeadLetterReason::Timeout, op)),
-                _ => l1.len() > 0 && l1.last() == Eff::TimeoutArmed(d) && r_ask_tracked_log::<M, R>(this, pid, c, l0, l1.drop_last(), r, op),
+                Err(Error::Timeout { identity, timeout, operation }) => identity == this.id && tm_fields_ok(timeout, d, operation@, op)
+                    && (l1 =~= dl_log::<M>(tm_log(pre, d), this.id, DeadLetterReason::Timeout, op)
+                        || l1 =~= dl_log::<M>(tm_log(ask_sent(this, pid, q, pre), d), this.id, DeadLetterReason::Timeout, op)),
+                _ => tm_last_ok(l1, d) && r_ask_tracked_log::<M, R>(this, pid, c, l0, tm_strip(l1), r, op),
             }
         },
     }
